@@ -4,5 +4,7 @@ CONSTANTS
   ChanCap = 4
   FixedAlter = FALSE
   MaxPersists = 3
-INVARIANTS LayersParallel IndexesAgree StatsExact ReopenSeesAll BtreeCount
+  MaxDeletes = 2
+  FirstOnlyModified = FALSE
+INVARIANTS LayersParallel IndexesAgree StatsExact ReopenSeesAll BtreeCount DurableIndexesAgree
 CHECK_DEADLOCK FALSE
